@@ -94,6 +94,11 @@ func defaultServerSettings() serverSettings {
 	}
 }
 
+const (
+	maxIndentSize         = 64
+	maxMinAlignmentColumn = 512
+)
+
 func normalizeServerSettings(settings serverSettings) serverSettings {
 	defaults := defaultServerSettings()
 	if settings.Completion.MaxResults <= 0 {
@@ -101,6 +106,17 @@ func normalizeServerSettings(settings serverSettings) serverSettings {
 	}
 	if settings.Formatting.IndentSize <= 0 {
 		settings.Formatting.IndentSize = defaults.Formatting.IndentSize
+	}
+	// Both values become strings.Repeat counts for every posting line; an
+	// absurd value from the client would allocate gigabytes per request.
+	if settings.Formatting.IndentSize > maxIndentSize {
+		settings.Formatting.IndentSize = maxIndentSize
+	}
+	if settings.Formatting.MinAlignmentColumn < 0 {
+		settings.Formatting.MinAlignmentColumn = 0
+	}
+	if settings.Formatting.MinAlignmentColumn > maxMinAlignmentColumn {
+		settings.Formatting.MinAlignmentColumn = maxMinAlignmentColumn
 	}
 	if settings.CLI.Path == "" {
 		settings.CLI.Path = defaults.CLI.Path
